@@ -218,6 +218,7 @@ class RegistryModel:
         self.class_names = class_names
         self.short: dict = {}
         self.full: dict = {}
+        self.open_full: set = set()  # full names a *failed* registration may or may not have left behind (atomicity is not stated)
         self.pre_class: dict = {}
         for key, cls_name in (pre or {}).items():
             ident = ("pre", key)
@@ -228,10 +229,10 @@ class RegistryModel:
                 self.short[key] = ident
 
     def snapshot(self):
-        return dict(self.short), dict(self.full)
+        return dict(self.short), dict(self.full), set(self.open_full)
 
     def restore(self, snap):
-        self.short, self.full = dict(snap[0]), dict(snap[1])
+        self.short, self.full, self.open_full = dict(snap[0]), dict(snap[1]), set(snap[2])
 
     def ident(self, cls: int, name: str):
         return ("h", cls, name if self.flavor == "inst" else None)
@@ -246,6 +247,17 @@ class RegistryModel:
     def register(self, cls: int, names: list[str]) -> dict:
         """Apply a registration; return what the statement lets us expect of the call."""
         exp = {"error": False, "warn_min": 0, "warn_max": 0}
+        if any("." in n for n in names):
+            # the call fails; the statement does not say whether the valid names before the invalid one take effect:
+            # nothing that was bound before may change, what the call itself would have added is left open
+            exp["error"] = True
+            for name in names:
+                if "." in name:
+                    break
+                fn = self.full_name(cls, name)
+                if fn not in self.full:
+                    self.open_full.add(fn)
+            return exp
         for name in names:
             if "." in name:
                 exp["error"] = True
@@ -261,6 +273,7 @@ class RegistryModel:
             else:
                 self.short[name] = ident
             self.full[self.full_name(cls, name)] = ident
+            self.open_full.discard(self.full_name(cls, name))
         return exp
 
     def set_plugin(self, short: str, target: str) -> str | None:
@@ -484,6 +497,25 @@ class History:
             self.observe()
 
     def _register(self, cls, names):
+        if names == ["<dots>"]:
+            for bad in (".vc", "vc.", "v.c", "..", "v..c"):
+                try:
+                    self.ad.register(cls, [bad])
+                except ValueError:
+                    continue
+                except Exception as e:  # noqa: BLE001
+                    raise Violation("reg.call", f"{type(e).__name__}: {e} | {self.where()}") from e
+                raise Violation("reg.dot_rejected", f"short name {bad!r} accepted | {self.where()}")
+            self.tags.add("dot-rejected")
+            return
+        if len(names) > 1 and any("." in n for n in names):
+            # failing multi-name registration: only when every valid name before the invalid one is already bound
+            # (otherwise the outcome for that short name would be open as well)
+            pre = names[: next(i for i, n in enumerate(names) if "." in n)]
+            if any(n not in self.model.short for n in pre):
+                self.tags.add("failing-multi-skipped")
+                return
+            self.tags.add("failing-multi-registration")
         exp = self.model.register(cls, names)
         raised = None
         with warnings.catch_warnings(record=True) as rec:
@@ -516,6 +548,21 @@ class History:
             self.tags.add("multi-format")
 
     def _set(self, short, target):
+        if target in self.model.open_full and target not in self.model.full:
+            self.tags.add("set-to-open-name-skipped")
+            return
+        if short == "<dots>":
+            # every placement of the dot in a short name is rejected
+            for bad in (".vc", "vc.", "v.c", "..", "v..c"):
+                try:
+                    self.ad.set_plugin(bad, target)
+                except ValueError:
+                    continue
+                except Exception as e:  # noqa: BLE001
+                    raise Violation("set.call", f"{type(e).__name__}: {e} | {self.where()}") from e
+                raise Violation("set.dot_rejected", f"set_plugin accepted the short name {bad!r} | {self.where()}")
+            self.tags.add("set-dot-rejected")
+            return
         known_full = sorted(self.model.full)
         err = self.model.set_plugin(short, target)
         raised = None
@@ -549,6 +596,8 @@ class History:
 
     def _check_name(self, name):
         m = self.model
+        if name in m.open_full and name not in m.full and name not in m.short:
+            return None  # left open by a failed registration
         ident = m.short.get(name)
         is_short = ident is not None
         if ident is None:
@@ -600,6 +649,8 @@ class History:
         if self.ad.variant not in ("data_io", "project_io"):
             return
         mod = dreg if self.ad.variant == "data_io" else preg
+        if name in self.model.open_full and name not in self.model.full and name not in self.model.short:
+            return  # left open by a failed registration
         ident = self.model.resolve(name)
         if ident is not None and ident[0] == "pre":
             self.tags.add("dispatch-skipped-builtin")
@@ -659,7 +710,8 @@ def alphabet(variant: str, with_builtin: bool) -> list[dict]:
     for ci in (0, 1):
         for s in (["va"], ["vb"]):
             ops.append({"op": "reg", "cls": ci, "names": s})
-    ops.append({"op": "reg", "cls": 0, "names": ["v.c"]})
+    ops.append({"op": "reg", "cls": 0, "names": ["<dots>"]})
+    ops.append({"op": "reg", "cls": 1, "names": ["va", "v.c"]})  # fails after a valid name (only applied when 'va' is bound)
     ops.append({"op": "reg", "cls": 2, "names": ["va", "vb"]})
     ops.append({"op": "reg", "cls": 3, "names": ["vb", "va"]})
     if flavor == "inst":
@@ -670,7 +722,7 @@ def alphabet(variant: str, with_builtin: bool) -> list[dict]:
     for s in ("va", "vb"):
         for t in targets:
             ops.append({"op": "set", "short": s, "target": t})
-    ops.append({"op": "set", "short": "v.c", "target": targets[0]})
+    ops.append({"op": "set", "short": "<dots>", "target": targets[0]})
     if with_builtin and builtin:
         ops.append({"op": "reg", "cls": 0, "names": [builtin]})
         ops.append({"op": "set", "short": builtin, "target": m.full_name(0, builtin)})
